@@ -49,8 +49,10 @@ def prepare(p, targets, existing, now):
         p.touch(rel, now - 500 + i)
 
 
-def check_previews_and_run(name, targets, existing, pre_jobs, problems, config=None):
-    """C05 + C02 on one scenario. pre_jobs: {target: slurm state} already tracked before the commands."""
+def check_previews_and_run(name, targets, existing, pre_jobs, problems, config=None, patterns=()):
+    """C05 + C02 on one scenario. pre_jobs: {target: slurm state} already tracked before the commands.
+    patterns: names / globs given to dry-run and run (the requested targets); status is taken without them, since
+    the state of a target does not depend on the selection, and restricted to the cone of the matching targets."""
     p = Project(targets, config=config)
     try:
         now = time.time()
@@ -76,7 +78,7 @@ def check_previews_and_run(name, targets, existing, pre_jobs, problems, config=N
             problems.append(f"{name}: gwf status failed: {out[-300:]}")
             return
         rows = parse_status(out)
-        code, out = p.gwf("run", "--dry-run")
+        code, out = p.gwf("run", "--dry-run", *patterns)
         would = [l.split()[-1] for l in out.splitlines() if l.startswith("Would submit")]
         after = semantic(p.snapshot())
         if after != before:
@@ -85,9 +87,19 @@ def check_previews_and_run(name, targets, existing, pre_jobs, problems, config=N
         if calls1 != calls0:
             problems.append(f"{name}: status / run --dry-run called sbatch or scancel")
         expected = sorted(t for t, st in rows.items() if st in NEEDS)
+        if patterns:
+            import fnmatch
+            deps_ = deps_of(targets)
+            cone, todo = set(), [t["name"] for t in targets if any(fnmatch.fnmatch(t["name"], q) for q in patterns)]
+            while todo:
+                n_ = todo.pop()
+                if n_ not in cone:
+                    cone.add(n_)
+                    todo.extend(deps_[n_])
+            expected = [t for t in expected if t in cone]
         if sorted(would) != expected:
             problems.append(f"{name}: status shows {expected} as shouldrun/failed/cancelled, dry run would submit {sorted(would)}")
-        code, out = p.gwf("run")
+        code, out = p.gwf("run", *patterns)
         logs = sorted(os.listdir(p.path(".gwf/logs")))
         if "gone.stdout" in logs or "gone.stderr" in logs or f"{targets[0]['name']}.stdout" not in logs:
             problems.append(f"{name}: after gwf run the log directory holds {logs}: logs of removed targets must go, "
@@ -109,6 +121,8 @@ def check_previews_and_run(name, targets, existing, pre_jobs, problems, config=N
         for tn in submitted:
             if tr.get(tn) not in [jid for jid, j in new if j["name"] == tn]:
                 problems.append(f"{name}: tracked id of {tn} is not the id sbatch returned")
+        if patterns:
+            return
         # C06: after the cluster drains everything with outputs is completed and a re-run is a no-op
         p.drain()
         rows2 = parse_status(p.gwf("status")[1])
@@ -171,6 +185,12 @@ def run_c05(seed, focus):
         for existing, pre in scenarios:
             tried += 1
             check_previews_and_run(f"{wname}/existing={existing}/jobs={pre}", targets, existing, pre, problems)
+            if problems:
+                return result(problems, tried, "status/dry-run/run agree, previews change nothing, re-run is a no-op")
+        # requested targets: a name, a glob over several, a pattern matching nothing (then nothing at all is submitted)
+        for pats in (("nomatch*",), (targets[-1]["name"],), (targets[0]["name"], "nomatch"), ("*",)):
+            tried += 1
+            check_previews_and_run(f"{wname}/requested={list(pats)}", targets, outs[:1], {}, problems, patterns=pats)
             if problems:
                 return result(problems, tried, "status/dry-run/run agree, previews change nothing, re-run is a no-op")
         # the same with spec hashing switched on: previews must not record (or erase) a hash either
@@ -313,6 +333,30 @@ def check_map_api(problems):
             return tpl(path)
 
     tried = 0
+    # names: identifier-like ASCII strings only. Every code point of the Basic Multilingual Plane is tried as the whole
+    # name, as first and as later character through the real validation (bounded counterpart of the proved contract)
+    import re
+    from gwf.utils import is_valid_name
+    ascii_name = re.compile(r"[A-Za-z_][A-Za-z0-9._]*\Z")
+    wrong = []
+    for cp in range(0x10000):
+        ch = chr(cp)
+        for cand in (ch, ch + "a", "a" + ch, "a" + ch + "b"):
+            tried += 1
+            try:
+                got = bool(is_valid_name(cand))
+            except Exception:
+                got = False
+            if got != bool(ascii_name.match(cand)):
+                wrong.append(cand)
+    for extra in ("a\n", "\na", "a b", "", "1a", "a.b", "_", "a-b", "a\x00"):
+        tried += 1
+        if bool(is_valid_name(extra)) != bool(ascii_name.match(extra)):
+            wrong.append(extra)
+    if wrong:
+        problems.append(f"names: is_valid_name disagrees with 'identifier-like' ([A-Za-z_][A-Za-z0-9._]*) on "
+                        f"{len(wrong)} strings, e.g. {[w.encode('unicode_escape').decode() for w in wrong[:6]]}")
+        return tried
     items = ["run1/s1.fq", "run1/s2.fq", "run2/s1.fq", "run2/s3.fq"]
     stem = lambda idx, t: "align_" + os.path.basename(t.inputs[0])[:-3]
     full = lambda idx, t: "align_" + t.inputs[0].replace("/", "_")[:-3]
@@ -501,6 +545,32 @@ def run_c20_cli(seed, focus):
         code, out = p.gwf("run", "--dry-run", global_opts=("-b", "slurm", "-v", "info"))
         if "Would submit" not in out:
             problems.append("-v info on the command line must win over verbose=warning in the configuration")
+        # colours: --no-color / --use-color over no_color in the project configuration over the default (colours on;
+        # NO_COLOR is not set here). gwf switches colours off by replacing click._compat.isatty: that is what is observed
+        import click
+        real_isatty = click._compat.isatty
+        saved_env = os.environ.pop("NO_COLOR", None)
+        try:
+            for conf in (None, "yes", "no"):
+                if conf is None:
+                    p.gwf("config", "unset", "no_color")
+                else:
+                    p.gwf("config", "set", "no_color", conf)
+                for flag in (None, "--no-color", "--use-color"):
+                    tried += 1
+                    click._compat.isatty = real_isatty
+                    p.gwf("status", global_opts=("-b", "slurm") + ((flag,) if flag else ()))
+                    off = click._compat.isatty is not real_isatty
+                    want_off = (flag == "--no-color") if flag else (conf == "yes")
+                    if off != want_off:
+                        problems.append(f"colours: flag {flag or '(none)'}, configuration no_color={conf or '(unset)'}: colours are "
+                                        f"{'off' if off else 'on'}, expected {'off' if want_off else 'on'} "
+                                        f"(flag over project configuration over default)")
+        finally:
+            click._compat.isatty = real_isatty
+            if saved_env is not None:
+                os.environ["NO_COLOR"] = saved_env
+        p.gwf("config", "unset", "no_color")
         # backend: flag over configuration
         tried += 1
         p.gwf("config", "set", "backend", "slurm")
@@ -526,6 +596,9 @@ def run_c09(seed, focus):
 def run_c15(seed, focus):
     """gwf clean: only unprotected declared outputs of the selected (non-endpoint unless --all) targets"""
     problems, tried = [], 0
+    tried += check_clean_directory_output(problems)
+    if problems:
+        return result(problems, tried, "clean")
     for wname, targets in WORKFLOWS.items():
         deps = deps_of(targets)
         dependents = {t["name"]: [u for u, ds in deps.items() if t["name"] in ds] for t in targets}
@@ -572,6 +645,37 @@ def run_c15(seed, focus):
                 if problems:
                     return result(problems, tried, "clean")
     return result(problems, tried, "clean")
+
+
+def check_clean_directory_output(problems):
+    """C15: a declared output that is a DIRECTORY: whatever clean does with it, files inside it that are protected, that
+    belong to an endpoint (without --all), that are source inputs or that are unrelated must survive"""
+    targets = [T("mk", ["params.txt"], ["results", "results/model.bin", "plain.txt"], protect=["results/model.bin"]),
+               T("report", ["results/model.bin", "results/params.yaml"], ["results/report.txt"])]
+    tried = 0
+    for args in (["-f"], ["--all", "-f"], ["-f", "mk"]):
+        tried += 1
+        p = Project(targets)
+        try:
+            now = time.time()
+            p.touch("params.txt", now - 1000)
+            for rel in ("results/model.bin", "results/report.txt", "results/params.yaml", "results/notes.md", "plain.txt"):
+                p.touch(rel, now - 10)
+            before = p.snapshot()
+            code, out = p.gwf("clean", *args)
+            after = p.snapshot()
+            removed = sorted(set(before) - set(after))
+            allowed = {"plain.txt"} | ({"results/report.txt"} if "--all" in args else set())
+            bad = [r for r in removed if r not in allowed and not r.startswith(".gwf")]
+            if bad:
+                problems.append(f"directory output: gwf clean {' '.join(args)} removed {bad} (protected by the target, output of "
+                                f"an endpoint, a source input or an unrelated file inside the declared output directory "
+                                f"'results'); only {sorted(allowed)} may go")
+        finally:
+            p.close()
+        if problems:
+            break
+    return tried
 
 
 def run_c16(seed, focus):
